@@ -25,6 +25,8 @@ TEMPLATES = [
     ("fn", "f8", "pub fn f8 ( l k : List ( Int ) , _ ) -> fn ( Int ) -> Int { fn ( a , b : Int ) -> Int { a + b . 0 } }"),
     ("type", "T3", "pub opaque type T3 ( a , b ) { D3 ( f : fn ( a ) -> b , g : # ( a , m . X ( b ) ) ) E3 }"),
     ("fn", "f9", "fn f9 ( x ) { let assert [ y ] = x todo as \"s\" x . f ( 1 ) |> g ( _ , 2 ) }"),
+    ("const", "c3", "const c3 = # ( 1 + 2 , k . v , \"s\" <> \"t\" , [ A , B ( 1 ) ] )"),
+    ("alias", "A2", "type A2 ( a ) = fn ( a , m . T ) -> # ( a , List ( a ) )"),
 ]
 
 
@@ -34,10 +36,16 @@ FOLLOWERS = {"f1", "f2", "T1", "T2", "c1", "c2", "k", "A1", "f5"}   # every way 
 def item(kind, name, text):
     lex = text.split(" ")
     lo = hi = 0
+    is_open = False
     if kind in ("fn", "type") and "{" in lex and lex[-1] == "}":
         lo = lex.index("{") + 1
         hi = len(lex)
-    return {"kind": kind, "name": name, "lex": lex, "lo": lo, "hi": hi, "follower": name in FOLLOWERS}
+    elif kind in ("const", "alias"):
+        # a body that is not delimited by braces: everything after `=`
+        lo = lex.index("=") + 1
+        hi = len(lex) + 1
+        is_open = True
+    return {"kind": kind, "name": name, "lex": lex, "lo": lo, "hi": hi, "open": is_open, "follower": name in FOLLOWERS}
 
 
 def run_cases(out, cases, name):
